@@ -25,9 +25,10 @@ def main():
     pid = sys.argv[1]
     src = f"/tmp/seed_out/{pid}"
     meta_in = json.load(open(os.path.join(src, "meta.json"))) if os.path.exists(os.path.join(src, "meta.json")) else {}
-    if os.path.exists(os.path.join(src, "meta2.json")):
-        m2 = json.load(open(os.path.join(src, "meta2.json")))
-        meta_in.setdefault("changes", []).extend(m2.get("changes", []))
+    for extra in ("meta2.json", "meta3.json"):
+        if os.path.exists(os.path.join(src, extra)):
+            m2 = json.load(open(os.path.join(src, extra)))
+            meta_in.setdefault("changes", []).extend(m2.get("changes", []))
     changes = {c.get("id"): c for c in meta_in.get("changes", [])}
     ids = sys.argv[2:] or sorted(f[:-5] for f in os.listdir(src) if f.endswith(".diff"))
     for cid in ids:
